@@ -20,6 +20,7 @@ import tempfile
 import numpy as np
 
 from vlib import common
+from harness.wrapguard import fail_or_tie
 
 common.use_repo_sources()
 
@@ -43,11 +44,29 @@ def stub_metric(z, i, j):
     return v
 
 
+WRAP_ERRORS = []        # checklist item 21: calls our stubs / recording wrappers could not interpret (tie, never a violation)
+
+
+def first_args(args, kwargs, count):
+    """the first `count` arguments of a call, whatever mix of positional / keyword form the caller used (keyword order = call order)"""
+    vals = list(args) + list(kwargs.values())
+    if len(vals) < count:
+        raise TypeError("stub called with %d arguments, needs %d" % (len(vals), count))
+    return vals[:count]
+
+
+def drain_wrapper_errors(res, case=None):
+    if WRAP_ERRORS:
+        res.count("wrapper.unexpected-call", len(WRAP_ERRORS))
+        res.disagree("C07:wrapper-unexpected-call", {"case": case}, WRAP_ERRORS[0], "a call form the harness's wrapper understands")
+        del WRAP_ERRORS[:]
+
+
 class StubTheta:
     def __init__(self, i):
         self.i = i
 
-    def predict_viability(self, data):
+    def predict_viability(self, *args, **kwargs):
         return self.i
 
 
@@ -55,15 +74,16 @@ class StubThetas:
     def __init__(self, n):
         self.n_thetas = n
 
-    def get_theta(self, i):
-        return StubTheta(int(i))
+    def get_theta(self, *args, **kwargs):
+        return StubTheta(int(first_args(args, kwargs, 1)[0]))
 
 
 class StubMetric:
     def __init__(self, z):
         self.z = z
 
-    def distance(self, a, b):
+    def distance(self, *args, **kwargs):
+        a, b = first_args(args, kwargs, 2)
         return float(stub_metric(self.z, a, b))
 
 
@@ -221,7 +241,7 @@ def case_assembly(dc, case, res, tmp, tie=None, tie_calc=False):
         try:
             m = dc.calculate_pairwise_distance_matrix_on_predictions(thetas, metric, None, np.int64(c) if npi else c, np.int64(k) if npi else k)
         except Exception as e:
-            res.fail("chunk computation raises", dict(case, chunk=c), type(e).__name__, "no exception")
+            fail_or_tie(res, "C07:harness-exception", "chunk computation raises", dict(case, chunk=c), e, "no exception")
             return
         fn = os.path.join(tmp, "a_%d.h5" % c)
         m.save(fn)
@@ -292,7 +312,7 @@ def case_assembly(dc, case, res, tmp, tie=None, tie_calc=False):
             tie.add("assemble %d %d %d %s" % (n, k, z, int_list(order)), show_dense_int(dense, n), ("assemble", n, k, z, order))
         res.traces_validated += 1
     except Exception as e:
-        res.fail("assembly of all chunks raises", case, "%s: %s" % (type(e).__name__, e), "complete symmetric matrix")
+        fail_or_tie(res, "C07:harness-exception", "assembly of all chunks raises", case, e, "complete symmetric matrix")
     # refusal: drop one non-empty chunk
     drop = case.get("dropped")
     if drop is not None and drop in nonempty:
@@ -323,7 +343,7 @@ class TempTheta:
     def __init__(self, i, L, seed):
         self.i, self.L, self.seed = i, L, seed
 
-    def predict_viability(self, data):
+    def predict_viability(self, *args, **kwargs):
         # a NEW array of the same size on every call (a temporary for the caller)
         return np.random.default_rng([self.seed, self.i]).normal(size=self.L)
 
@@ -334,8 +354,8 @@ class TempThetas:
     def __init__(self, n, L, seed):
         self.n_thetas, self.L, self.seed = n, L, seed
 
-    def get_theta(self, i):
-        return TempTheta(int(i), self.L, self.seed)
+    def get_theta(self, *args, **kwargs):
+        return TempTheta(int(first_args(args, kwargs, 1)[0]), self.L, self.seed)
 
 
 def case_temps(dc, case, res):
@@ -353,7 +373,7 @@ def case_temps(dc, case, res):
         direct = [metric.distance(th.get_theta(i).predict_viability(None), th.get_theta(j).predict_viability(None))
                   for i in range(n) for j in range(i)]
     except Exception as e:  # noqa
-        res.fail("distance computation on temporaries raises", case, "%s: %s" % (type(e).__name__, e), "matrix")
+        fail_or_tie(res, "C07:harness-exception", "distance computation on temporaries raises", case, e, "matrix")
         return
     want = np.zeros((n, n))
     wd = []
@@ -468,7 +488,7 @@ def case_boundary(dc, case, res, tmp):
                 pass
         res.traces_validated += 1
     except Exception as e:  # noqa
-        res.fail("save / load / concat / to_dense raises at this matrix size", case, "%s: %s" % (type(e).__name__, e), "no exception")
+        fail_or_tie(res, "C07:harness-exception", "save / load / concat / to_dense raises at this matrix size", case, e, "no exception")
     finally:
         for c in range(max(k, 3)):
             fn = os.path.join(tmp, "b_%d.h5" % c)
@@ -577,7 +597,7 @@ def make_cli_inputs(case, tmp):
     return data_fn, theta_fns
 
 
-REC = {"metric_calls": [], "scorer_dense": None}
+REC = {"metric_calls": [], "scorer_dense": None, "broken": False}
 
 
 def install_plugins():
@@ -588,17 +608,40 @@ def install_plugins():
     from batchie.core import Scorer
     if getattr(mse_mod, "VerifRecMSE", None) is None:
         class VerifRecMSE(mse_mod.MSEDistance):
-            def distance(self, a, b):
-                REC["metric_calls"].append((np.asarray(a).tobytes(), np.asarray(b).tobytes()))
-                return super().distance(a, b)
+            def distance(self, *args, **kwargs):
+                try:
+                    import inspect
+                    ba = inspect.signature(mse_mod.MSEDistance.distance).bind(self, *args, **kwargs)
+                    vals = list(ba.arguments.values())[1:3]
+                    REC["metric_calls"].append((np.asarray(vals[0]).tobytes(), np.asarray(vals[1]).tobytes()))
+                except Exception as e:  # noqa  (recording is the harness's business: never the implementation's failure)
+                    REC["broken"] = True
+                    WRAP_ERRORS.append("VerifRecMSE.distance: %s: %s" % (type(e).__name__, e))
+                return super().distance(*args, **kwargs)
         mse_mod.VerifRecMSE = VerifRecMSE
     if getattr(size_mod, "VerifRecScorer", None) is None:
         class VerifRecScorer(Scorer):
-            def score(self, plates, distance_matrix, samples, rng, progress_bar):
+            def score(self, *args, **kwargs):
+                plates, dm = {}, None
                 try:
-                    REC["scorer_dense"] = np.array(distance_matrix.to_dense())
+                    import inspect
+                    ba = inspect.signature(Scorer.score).bind(self, *args, **kwargs)
+                    plates = ba.arguments.get("plates", {})
+                    dm = ba.arguments.get("distance_matrix")
+                    if dm is None:
+                        raise TypeError("no distance_matrix argument")
                 except Exception as e:  # noqa
-                    REC["scorer_dense"] = "err:" + type(e).__name__
+                    vals = list(args) + list(kwargs.values())
+                    plates = next((v for v in vals if isinstance(v, dict)), {})
+                    dm = next((v for v in vals if hasattr(v, "to_dense")), None)
+                    if dm is None:
+                        REC["broken"] = True
+                        WRAP_ERRORS.append("VerifRecScorer.score: %s: %s" % (type(e).__name__, e))
+                if dm is not None:
+                    try:
+                        REC["scorer_dense"] = np.array(dm.to_dense())
+                    except Exception as e:  # noqa
+                        REC["scorer_dense"] = "err:" + type(e).__name__
                 return {k_: 0.0 for k_ in plates}
         size_mod.VerifRecScorer = VerifRecScorer
 
@@ -643,6 +686,7 @@ def _case_cli(dc, case, res, tmp, tie=None):
     n, k, order = case["n"], case["n_chunks"], case["order"]
     data_fn, theta_fns = make_cli_inputs(case, tmp)
     install_plugins()
+    REC["broken"] = False
     received = {}
     def run_chunk(c, kk, out):
         """the CLI for the default metric parameters; the CLI cannot pass optional constructor arguments such as
@@ -672,7 +716,7 @@ def _case_cli(dc, case, res, tmp, tie=None):
         try:
             run_chunk(c, k, out)
         except BaseException as e:  # argparse exits with SystemExit
-            res.fail("CLI calculate_distance_matrix raises", dict(case, chunk=c), "%s: %s" % (type(e).__name__, e), "chunk file written")
+            fail_or_tie(res, "C07:harness-exception", "CLI calculate_distance_matrix raises", dict(case, chunk=c), e, "chunk file written")
             return
         outs[c] = out
     # class cross-process determinism: the same chunks computed by the CLI in OTHER interpreter processes with different PYTHONHASHSEEDs
@@ -723,7 +767,7 @@ def _case_cli(dc, case, res, tmp, tie=None):
     # order, the prediction of sample i and the prediction of sample j (on the whole screen)
     for (c, kk), calls in received.items():
         mc = dc.ChunkedDistanceMatrix.load(outs[c]) if kk == k else None
-        if mc is None:
+        if mc is None or REC["broken"]:
             continue
         pairs_c = [(int(mc.row_indices[i]), int(mc.col_indices[i])) for i in range(mc.current_index)]
         want_calls = [(np.asarray(preds[i]).tobytes(), np.asarray(preds[j]).tobytes()) for (i, j) in pairs_c]
@@ -744,12 +788,14 @@ def _case_cli(dc, case, res, tmp, tie=None):
             with quiet_cli(argv), contextlib.redirect_stdout(io.StringIO()):
                 cs_cli.main()
             got = REC["scorer_dense"]
-            if got is None or isinstance(got, str) or got.shape != want.shape or not np.array_equal(got, want):
+            if REC["broken"]:
+                pass
+            elif got is None or isinstance(got, str) or got.shape != want.shape or not np.array_equal(got, want):
                 res.fail("the scorer did not receive the complete distance matrix from calculate_scores.main() (chunk files combined there)", case,
                          got if (got is None or isinstance(got, str)) else {"max_abs_diff": float(np.max(np.abs(got - want))) if got.shape == want.shape else str(got.shape)},
                          "the matrix of the metric applied to the samples' predictions")
         except BaseException as e:  # noqa
-            res.fail("CLI calculate_scores raises on the chunk files", case, "%s: %s" % (type(e).__name__, e), "scores written")
+            fail_or_tie(res, "C07:harness-exception", "CLI calculate_scores raises on the chunk files", case, e, "scores written")
         if os.path.exists(sc_out):
             os.unlink(sc_out)
     loaded = {c: dc.ChunkedDistanceMatrix.load(outs[c]) for c in range(k)}
@@ -774,7 +820,7 @@ def _case_cli(dc, case, res, tmp, tie=None):
             cat = dc.ChunkedDistanceMatrix.concat([dc.ChunkedDistanceMatrix.load(outs[c]) for c in order])
         dense = cat.to_dense()
     except Exception as e:
-        res.fail("assembly of CLI chunk files raises", case, "%s: %s" % (type(e).__name__, e), "complete matrix")
+        fail_or_tie(res, "C07:harness-exception", "assembly of CLI chunk files raises", case, e, "complete matrix")
         return nonempty
     if dense.shape != want.shape or not np.allclose(dense, want, rtol=1e-12, atol=1e-15):
         res.fail("CLI-assembled matrix differs from the metric applied to the samples' predict_viability", case,
@@ -840,7 +886,7 @@ def case_metric(case, res, tie=None):
         if layout == "readonly":     # the property does not promise that read-only arrays are accepted: tie only
             res.disagree("C07:metric-readonly", {"case": case}, "%s" % type(e).__name__, "a distance")
         else:
-            res.fail("metric raises", case, "%s: %s" % (type(e).__name__, e), "a distance")
+            fail_or_tie(res, "C07:harness-exception", "metric raises", case, e, "a distance")
         return
     if dab != fresh:
         res.fail("a metric object that was used before gives another distance than a fresh one", case, float(dab), float(fresh))
@@ -1292,6 +1338,7 @@ def run(ctx, res):
     finally:
         shutil.rmtree(tmp, ignore_errors=True)
 
+    drain_wrapper_errors(res)
     # ---------- tie: model vs implementation --------------------------------------------
     if drv is not None:
         got = drv.ask(tie.lines)
@@ -1304,6 +1351,13 @@ def run(ctx, res):
 
 
 def replay(ctx, case, res):
+    try:
+        _replay(ctx, case, res)
+    finally:
+        drain_wrapper_errors(res, case)
+
+
+def _replay(ctx, case, res):
     from batchie import distance_calculation as dc
     kind = case.get("kind")
     tmp = tempfile.mkdtemp(prefix="c07r_", dir=os.environ.get("VERIF_TMP", None))
